@@ -333,9 +333,33 @@ def check_header(res, want_opts, out, tag):
     return first
 
 
+def _builder_option_cases(rng, tier):
+    """the PacketBuilder's options()/options_raw() steps (element lists incl. the empty one and lists that do not
+    fit, raw areas), on C10's configurations and judged by C10's reference builder; the harness precedes every
+    configured options call by another one, which must leave no trace"""
+    import random as _random
+    from . import c10
+
+    r2 = _random.Random(rng.randrange(1 << 30))
+    n = 0
+    for c in c10.generate(r2, "quick"):
+        cfg = c.meta.get("cfg_text", "")
+        if "/tcp:" not in cfg or cfg.endswith("|-") or c.meta.get("payload", "").startswith("len:"):
+            continue
+        n += 1
+        if tier == "quick" and n > 400:
+            break
+        c.meta["k"] = "builder"
+        yield c
+
+
 def oracle(c):
     out = []
     k = c.meta.get("k")
+    if k == "builder":
+        from . import c10
+
+        return c10.oracle(c)
     try:
         for o in c.impl:
             if o is None or o == "panic" or o == "bad-op" or o.startswith("fault(") or "!" in o or "runaway" in o:
@@ -592,6 +616,11 @@ def perturbed_area(rng):
 
 
 def generate(rng, tier):
+    yield from _generate(rng, tier)
+    yield from _builder_option_cases(rng, tier)
+
+
+def _generate(rng, tier):
     quick = tier == "quick"
     # ---- (a) element lists --------------------------------------------------------------------
     yield elems_case([])
